@@ -37,7 +37,7 @@ def resolve(proj, rev, now):
         return {"t": "frame", "now": now,
                 "f": {"kind": r["kind"], "seq": seq, "pd": r["pd"], "gf": r["gf"], "newseq": newseq, "b": b, "e": e,
                       "trid": trid, "pay": ("11=p%d" % seq) if r["kind"] == "APP" else "", "text": False,
-                      "hdr": r["hdr"]}}
+                      "hdr": r["hdr"], "tail": r.get("tail", "")}}
     if t == "send":
         r = rev["m"]
         trid = r["trid"]
@@ -139,6 +139,8 @@ class Session:
                                        newseq=f["newseq"] if f["kind"] == "SEQRESET" else None,
                                        b=f["b"], e=f["e"], trid=f["trid"] or None,
                                        pay=f["pay"][3:] if f["pay"] else None, hdr=f["hdr"])
+                if f.get("tail") == "logon":     # a well-formed Logon numbered as expected, in the same read
+                    data += self.peer.frame("LOGON", pre["nin"])
                 ep.feed(data)
         elif t == "send":
             if not ev["up"] and ep.writer is not None:
